@@ -141,9 +141,13 @@ vars == <<i, toks, text, prev, fault, fat, done>>
 Brackets == {"{", "}", "(", ")"}
 \* punctuation that needs no white space around it: "?o." "30." "?a;<p>" are complete tokens followed by the mark
 Tight == {".", ";", ","}
+\* ... except after a prefixed name: "e:i2." would be read as the one name e:i2. followed by what comes next ("e:i2.GRAPH" is a
+\* legal local name).  The case file lists the prefixed-name spellings it uses (key "~pn").
+PNames(txt) == IF "~pn" \in DOMAIN txt THEN {txt["~pn"][k] : k \in 1..Len(txt["~pn"])} ELSE {}
 Seps(a, b) == (IF a = "" THEN {""} ELSE {}) \cup {Aux.seps[k] : k \in 1..Len(Aux.seps)} \cup
               {Aux.comments[k] : k \in 1..Len(Aux.comments)} \cup
-              (IF a \in Brackets \/ b \in Brackets \/ a \in Tight \/ b \in Tight THEN {""} ELSE {})
+              (IF (a \in Brackets \/ b \in Brackets \/ a \in Tight \/ b \in Tight) /\ ~(b = "." /\ a \in PNames(Cases[i].txt))
+                 THEN {""} ELSE {})
 Spellings(t) == IF t.k = "kw" THEN {Aux.kw[t.s][k] : k \in 1..Len(Aux.kw[t.s])} ELSE {t.s}
 
 Init == /\ i \in 1..Len(Cases) /\ toks = PrintCase(Cases[i]) /\ text = "" /\ prev = "" /\ fault = "" /\ fat = 0 /\ done = FALSE
@@ -183,8 +187,14 @@ CutInside == /\ ~done /\ Due /\ Len(toks) > 0 /\ prev # "" /\ Head(toks).k = "te
              /\ \E k \in 1..Len(Aux.cuts) : \E sep \in {" ", "\n"} : text' = text \o sep \o Aux.cuts[k]
              /\ fault' = "cut inside a token" /\ toks' = <<>> /\ UNCHANGED <<i, prev, fat, done>>
 
+\* a term with a malformed escape sequence in the middle of the text: \u / \U windows cut short by a multi-byte character, by a
+\* non-hex letter or by the closing bracket, surrogates, unknown escapes (Aux.badterms); the rest of the text follows
+BadTerm == /\ ~done /\ Due /\ Len(toks) > 0 /\ Head(toks).k = "term"
+           /\ \E k \in 1..Len(Aux.badterms) : toks' = TM(Aux.badterms[k]) \o Tail(toks)
+           /\ fault' = "term with a malformed escape" /\ UNCHANGED <<i, text, prev, fat, done>>
+
 Next == Resolve \/ EmitTok \/ Finish
-FaultyNext == Next \/ Truncate \/ DropTok \/ DupTok \/ Multibyte \/ CutInside
+FaultyNext == Next \/ Truncate \/ DropTok \/ DupTok \/ Multibyte \/ CutInside \/ BadTerm
 Spec == Init /\ [][Next]_vars
 FaultySpec == FaultyInit /\ [][FaultyNext]_vars
 
